@@ -148,6 +148,9 @@ func OrcaRand(a Args) {
 			case 8:
 				return absx.AbsBase + now + 1
 			case 9:
+				if rng.Intn(2) == 0 {
+					return absx.AbsBase + 3000 + rng.Intn(3) // an absolute time more than 30 days ahead
+				}
 				return absx.AbsBase + now + 2 + rng.Intn(2)
 			case 10:
 				return absx.AbsBase + now // absolute time that is already reached
